@@ -576,6 +576,40 @@ class SameWidthEq(L1):
 
 
 
+class CharIntEq(L1):
+    """eq / neq between a Qchar and a Qint of any width (what `ord(c) == 48` / `c == chr(n)` become: ord/chr are rewritten away, so the
+    character's 8 bits meet an integer's bits): den(res) = (the two unsigned values are equal / differ), whatever the integer's width.
+    Dispatch is on the LEFT operand's type: Qchar.eq(Qchar, QintN) and QintImp.eq(QintN, Qchar)."""
+
+    def __init__(self, op, char_left):
+        self.op, self.char_left = op, char_left
+        self.name = f"{'Qchar' if char_left else 'QintImp'}.{op}.char-int"
+
+    def fn(self):
+        return getattr(Qchar if self.char_left else QintImp, self.op)
+
+    def shapes(self, tier):
+        return [(Qchar, T) if self.char_left else (T, Qchar) for T in QINT_TYPES]
+
+    def instantiate(self, shape, vc):
+        TL, TR = shape
+        l, zl = opnd(TL, "l")
+        r, zr = opnd(TR, "r")
+        return getattr(TL, self.op), [l, r], {}, dict(l=l, r=r, leaves={**zl, **zr}, opnds=[("l", TL), ("r", TR)])
+
+    def post(self, shape, ctx, value):
+        TL, TR = shape
+        if not R(value, bool):
+            return [Clause("R", False, "structural")]
+        W = max(TL.BIT_SIZE, TR.BIT_SIZE)
+        a, b = ext(bv(ctx["l"][1]), W), ext(bv(ctx["r"][1]), W)
+        return [Clause("R", True, "structural"), Clause("value", den(value[1]) == ZCMP[self.op](a, b))]
+
+    def region_ns(self, shape, ctx):
+        TL, TR = shape
+        return dict(n=TL.BIT_SIZE, m=TR.BIT_SIZE)
+
+
 class CrossClassRejected(L1):
     """'A program outside the supported subset is rejected, never silently translated into a different
     function': an arithmetic / comparison method handed operands of two different value classes
@@ -631,6 +665,9 @@ def all_contracts():
         cs.append(QfixedArith(op))
     cs.append(QfixedMulConst())
     cs.append(QfixedMulVar())
+    for op in ("eq", "neq"):
+        cs.append(CharIntEq(op, True))
+        cs.append(CharIntEq(op, False))
     cs.append(SameWidthEq(Qchar, "eq", Qchar))
     cs.append(SameWidthEq(Qchar, "neq", Qchar))
     cs.append(SameWidthEq(Qbool, "eq", bool))
